@@ -282,7 +282,14 @@ def match_known(known, prop, case, diff):
     """A failing case is suppressed only if a classifier matches it exactly."""
     cid, stream, kind, params, strs, ops = case
     op = op_of(case, diff)
-    phase = "loaded" if any(o and o[0] == "reload" for o in ops[: max(0, diff["op_index"] - 1)]) else "built"
+    before = ops[: max(0, diff["op_index"] - 1)]
+    phase = "loaded" if any(o and o[0] == "reload" for o in before) else "built"
+    lopt = 0
+    for o in before + [op]:
+        if o and o[0] == "reload" and len(o) > 2:
+            lopt = int(o[2])
+        if o and o[0] == "resave" and len(o) > 1 and o is op:
+            lopt = int(o[1])
     for f in known:
         m = f["match"]
         if prop not in f.get("properties", [prop]):
@@ -294,6 +301,8 @@ def match_known(known, prop, case, diff):
         if "phase" in m and m["phase"] != phase:
             continue
         if "op" in m and op[0] not in m["op"]:
+            continue
+        if "lopt" in m and lopt not in m["lopt"]:
             continue
         if "observed_regex" in m and not re.search(m["observed_regex"], diff["observed"]):
             continue
